@@ -14,7 +14,11 @@ NA = {
 
 # properties for which the solver-based check designed in DESIGN.md has not been built and run clean in this round;
 # they are not claimed (no other technique is substituted)
-UNBUILT = {}
+UNBUILT = {
+    "C01": "the property's observable is the verifier's verdict on the prover's own proof: deciding it needs the whole prover and verifier (FFT-16 and ~100 real hash calls in the smallest instance), far outside the measured CBMC/SMT limits; "
+           "the pieces within reach (verifier-side table/query limits, option/partition arithmetic, FRI completeness for 0 and 1 layers, composition-column count) are decided under C05, C07, C08 and C23 and are not re-registered "
+           "here because they do not decide C01's statement (DESIGN.md sections 4 C01 and 9)",
+}
 
 KANI_NOTE = "Kani 0.68/CBMC 6.11 (cadical) and its Rust model, dev-profile semantics (overflow checks on); alloc::fmt::format stubbed; nothing is claimed outside the bounds named per harness in the evidence file"
 
@@ -59,7 +63,8 @@ CHECKS = {
             "as_int(new(v)) == v for f64/f62 is the composition of the C10 mirsym contracts (new, as_int); cubic wrapper and f62 encoders (symbolic Montgomery product) only in the thorough tier",
             "DESIGN.md section 9.8 C11"),
     "C12": ("bounded model checking (Kani/CBMC) of permute_index (all sizes) and of the serial FFT over F17 for sizes 2 and 4",
-            "Bit reversal for every power-of-two size up to 2^63; evaluate_poly / interpolate_poly / *_with_offset (blowup 2, offset GENERATOR) / infer_degree against naive evaluation for all coefficient vectors.",
+            "Bit reversal for every power-of-two size up to 2^63; evaluate_poly / interpolate_poly / *_with_offset (blowup 2, offset GENERATOR) / infer_degree against naive evaluation for all coefficient vectors; "
+            "coset interpolation on 2 points for every polynomial and on 4 points for every monomial c*x^k (zero coefficients below a non-zero one).",
             KANI_NOTE + "; F17 model field as type parameter (generic algorithm code is winterfell's); sizes >= 8, extension fields, threads outside",
             "DESIGN.md section 4 C12"),
     "C13": ("bounded model checking (Kani/CBMC) of the generic polynomial helpers instantiated at F17 against schoolbook definitions",
